@@ -424,3 +424,23 @@ func FuzzReplay(t *testing.T, property string, targets map[string]func([]byte) e
 	}, Journal: true}
 	c.Replay(t)
 }
+
+// FixedInputs runs a byte-level oracle over fixed inputs (repository fixtures)
+// before the generated search; a failure is written as a FuzzCase replay file.
+func FixedInputs(t *testing.T, property, target string, inputs map[string][]byte, f func([]byte) error) {
+	names := make([]string, 0, len(inputs))
+	for n := range inputs {
+		names = append(names, n)
+	}
+	sort.Strings(names)
+	for _, n := range names {
+		in := inputs[n]
+		Eval()
+		Class("fixture")
+		if err := Safely(func() error { return f(in) }); err != nil {
+			writeCase(os.Getenv("VERIF_CASEFILE"), property, FuzzCase{FuzzTarget: target, Args: []Hex{in}}, fmt.Sprintf("fixture %s: %v", n, err))
+			Dump()
+			t.Fatalf("%s violated by fixture %s: %v", property, n, err)
+		}
+	}
+}
